@@ -383,7 +383,8 @@ SGX_VARIANTS = ["genuine", "genuine-reordered", "key-replaced", "keys-swapped-pa
                 "root-missing-file", "flip-quote-signature", "custom-data-other",
                 "genuine-odd-paths", "odd-paths-hash-in-numeric-order", "forged-extra-targets",
                 "forged-extra-targets", "flip-signature-extra-targets",
-                "cert-by-key-of-another-algorithm", "cert-by-key-of-another-algorithm"]
+                "cert-by-key-of-another-algorithm", "cert-by-key-of-another-algorithm",
+                "att-message-extended", "quote-extended"]
 
 
 def sgx_case(acc, rng, variant, tmpdir, case):
@@ -493,6 +494,15 @@ def sgx_case(acc, rng, variant, tmpdir, case):
         b = bytearray(bytes.fromhex(e["signature"]))
         b[rng.randrange(4, len(b))] ^= 1 << rng.randrange(8)
         e["signature"] = bytes(b).hex()
+        expect_ok = False
+    elif variant == "att-message-extended":
+        e = [x for x in doc["elements"] if x["type"] == "sgx_attestation_key"][0]
+        e["message"] = e["message"] + rng.choice(["00", "00" * 32, rng.randbytes(64).hex(),
+                                                  e["message"]])
+        expect_ok = False
+    elif variant == "quote-extended":
+        e = [x for x in doc["elements"] if x["name"] == "quote"][0]
+        e["message"] = e["message"] + rng.choice(["00", rng.randbytes(48).hex()])
         expect_ok = False
     elif variant == "custom-data-other":
         e = [x for x in doc["elements"] if x["name"] == "quote"][0]
